@@ -1,7 +1,8 @@
 (* Theorems about database operations issued from compiled code (DbProg.v), for every program, every
    body, every store and every nesting of suspended goals (a goal is suspended while the rest of the
    body - which may contain further goals and updates on the same predicate - runs for one of its
-   answers):
+   answers; bodies with !, fail, ( A ; B ), ( C -> T ; E ), \+ C: the updates made in branches that a cut or a
+   commit discards are part of the trace and of the fold - alt_post holds whatever the flags are):
 
    - the trace of a run is a sequence of ATOMIC LIST OPERATIONS, each applied to the list that is current
      when it happens: an assert conses/appends one new Answer, an answer of retract deletes one Answer
